@@ -760,3 +760,103 @@ Section MapExpr.
       + rewrite map_fst_combine by (rewrite map_length; exact Hlen). exact Hnd.
   Qed.
 End MapExpr.
+
+(* ====================================================================== *)
+(* calls: name arg arg ...                                                 *)
+(* ====================================================================== *)
+Section Calls.
+  Variable E : env.
+  Hypothesis NT : no_tyerr E.
+
+  (* what ends an argument list: ")" "]" end of line / input *)
+  Definition list_end (t : token) : Prop :=
+    match ttype t with T_RPAREN | T_RBRACKET | T_EOF | T_NL | T_COMMENT => True | _ => False end.
+
+  Lemma list_end_stop t : list_end t -> stop_tok true lowestPrec t.
+  Proof.
+    unfold list_end, stop_tok. destruct (ttype t) eqn:T; try contradiction; intros _;
+      first [right; left; reflexivity | right; right; rewrite ?rparen_lowest, ?rbracket_lowest; apply Nat.le_refl].
+  Qed.
+
+  Definition more_args (r : list (list token)) : list token := flat_map (fun x => mk T_WS :: x) r.
+
+  Lemma pop_wss_ws st b w' rest' :
+    rest st = mk T_WS :: rest' -> wss st = b :: false :: w' -> wsish (look0 rest') = false ->
+    rest (pop_wss st) = rest' /\ wss (pop_wss st) = false :: w' /\ errs (pop_wss st) = errs st.
+  Proof.
+    intros Hr Hw Hn. unfold pop_wss.
+    set (st1 := {| prev := prev st; rest := rest st; peek := peek st; wss := tl (wss st); errs := errs st; used := used st |}).
+    assert (W1 : wss st1 = false :: w') by (unfold st1; cbn; rewrite Hw; reflexivity).
+    assert (C : negb (is_wss st1) && is_ws (cur st1) = true).
+    { unfold is_wss, cur. rewrite W1. unfold st1; cbn. rewrite Hr. reflexivity. }
+    rewrite C. destruct (advance_plain st1 (mk T_WS) rest') as (A1 & A2 & A3); auto.
+    rewrite A1, A2, A3, W1. auto.
+  Qed.
+
+  (* parseExprList: the cursor is at the first argument (or at the end) *)
+  Lemma expr_list_loop f : forall args trees acc st rest0 fuel outer,
+    Forall2 (fun a t => RT E true a t /\ head_ok a) args trees ->
+    rest st = (match args with [] => [] | a :: r => a ++ more_args r end) ++ rest0 ->
+    wss st = false :: outer ->
+    list_end (look0 rest0) ->
+    (forall a, In a args -> 2 * List.length a <= f) ->
+    List.length args < fuel ->
+    exists st', parse_expr_list (parse_expr E f) fuel acc st = Some (Some (rev acc ++ trees), st') /\ same3 st st' rest0.
+  Proof.
+    induction args as [|a r IH]; intros trees acc st rest0 fuel outer HF Hr Hw Hend Hf Hfuel.
+    - inversion HF; subst. cbn [app] in Hr. destruct fuel as [|fu]; [simpl in Hfuel; lia|]. cbn [parse_expr_list].
+      unfold cur_t, cur, is_at_eol, cur_t, cur. rewrite Hr. unfold list_end in Hend.
+      exists st. rewrite app_nil_r.
+      destruct (ttype (look0 rest0)) eqn:T; try contradiction; cbn [is_eol]; (split; [reflexivity | repeat split; exact Hr]).
+    - inversion HF as [|? t ? trees' [Hrt Hhd] HF']; subst.
+      destruct fuel as [|fu]; [simpl in Hfuel; lia|]. cbn [parse_expr_list].
+      destruct a as [|t0 a']; [contradiction|].
+      set (tail := more_args r ++ rest0).
+      assert (Hr1 : rest st = (t0 :: a') ++ tail) by (rewrite Hr; unfold tail; rewrite <- app_assoc; reflexivity).
+      assert (Hcur : cur_t st = ttype t0) by (unfold cur_t, cur; rewrite Hr1; reflexivity).
+      assert (Heol : is_at_eol st = false).
+      { unfold is_at_eol. rewrite Hcur. cbn [head_ok] in Hhd. unfold is_eol. destruct (ttype t0); try contradiction; reflexivity. }
+      rewrite Hcur, Heol.
+      assert (Hstop : stop_tok true lowestPrec (look0 tail)).
+      { unfold tail. destruct r as [|a2 r2]; [cbn [more_args flat_map app]; apply list_end_stop, Hend|].
+        cbn [more_args flat_map app look0 hd]. left. split; reflexivity. }
+      destruct (Hrt (push_wss true st) tail f) as (st1 & P1 & Q1 & Q2 & Q3); auto.
+      { intro; discriminate. }
+      { apply (Hf (t0 :: a')). left. reflexivity. }
+      unfold parse_expr_wss. rewrite P1. cbn [ret].
+      (* back in the argument list: skip the separating blank *)
+      assert (Hstep : exists st2, advance_if_ws (pop_wss st1) = st2 /\
+                rest st2 = (match r with [] => [] | a2 :: r2 => a2 ++ more_args r2 end) ++ rest0 /\
+                wss st2 = false :: outer /\ errs st2 = errs st).
+      { destruct r as [|a2 r2].
+        - unfold tail in Q1. cbn [more_args flat_map app] in Q1.
+          destruct (pop_wss_nop st1 true (false :: outer)) as (A1 & A2 & A3).
+          { rewrite Q2. cbn. rewrite Hw. reflexivity. }
+          { intros _. rewrite Q1. unfold list_end in Hend. unfold is_ws. destruct (ttype (look0 rest0)); try contradiction; reflexivity. }
+          exists (pop_wss st1). split.
+          + unfold advance_if_ws. assert (C : is_ws (cur (pop_wss st1)) = false).
+            { unfold cur. rewrite A1, Q1. unfold list_end in Hend. unfold is_ws. destruct (ttype (look0 rest0)); try contradiction; reflexivity. }
+            rewrite C. reflexivity.
+          + rewrite A1, A2, A3, Q1, Q3. auto.
+        - inversion HF' as [|? ? ? ? [_ Hh2] _]; subst.
+          unfold tail in Q1. cbn [more_args flat_map] in Q1. fold (more_args r2) in Q1. rewrite <- app_assoc in Q1. cbn [app] in Q1.
+          destruct a2 as [|t2 a2']; [contradiction|].
+          assert (Hn2 : wsish (look0 (((t2 :: a2') ++ more_args r2) ++ rest0)) = false).
+          { cbn [app look0 hd]. cbn [head_ok] in Hh2. unfold wsish. destruct (ttype t2); try contradiction; reflexivity. }
+          destruct (pop_wss_ws st1 true outer (((t2 :: a2') ++ more_args r2) ++ rest0)) as (A1 & A2 & A3); auto.
+          { rewrite Q1. rewrite <- app_assoc. reflexivity. }
+          { rewrite Q2. cbn. rewrite Hw. reflexivity. }
+          exists (pop_wss st1). split.
+          + unfold advance_if_ws. assert (C : is_ws (cur (pop_wss st1)) = false).
+            { unfold cur. rewrite A1. cbn [app look0 hd]. cbn [head_ok] in Hh2. unfold is_ws. destruct (ttype t2); try contradiction; reflexivity. }
+            rewrite C. reflexivity.
+          + rewrite A1, A2, A3, Q3. auto. }
+      destruct Hstep as (st2 & <- & R2 & W2 & E2).
+      destruct (IH trees' (t :: acc) (advance_if_ws (pop_wss st1)) rest0 fu outer HF' R2 W2 Hend) as (st' & P3 & F1 & F2 & F3).
+      { intros x Hx. apply Hf. right. exact Hx. }
+      { simpl in Hfuel. lia. }
+      exists st'. split.
+      + cbn [head_ok] in Hhd. destruct (ttype t0); try contradiction; rewrite P3; cbn [rev]; rewrite <- app_assoc; reflexivity.
+      + repeat split; auto; [rewrite F2, W2, Hw | rewrite F3, E2]; reflexivity.
+  Qed.
+End Calls.
